@@ -82,8 +82,15 @@ def cx_arr(name, shape):
     return a
 
 
+def int_arr(name, shape):
+    f = z3.Function(name, *([z3.IntSort()] * len(shape)), z3.IntSort())
+    a = Arr(list(shape), lambda idx: f(*[tonum(i) for i in idx]), 'int')
+    a.fun = f
+    return a
+
+
 def mk_esig(ex, name, n, noise=False, kind='float'):
-    mk = real_arr if kind == 'float' else cx_arr
+    mk = {'float': real_arr, 'complex': cx_arr, 'int': int_arr}[kind]
     s = mk(name + '_s', [n])
     nz = mk(name + '_n', [n]) if noise else None
     o = Obj('electrical_signal', signal=s, noise=nz, execution_time=0)
